@@ -416,31 +416,30 @@ func judge(h *Header, evs []Ev) *judgement {
 				}
 			}
 			sort.Ints(cands)
-			// Was every candidate chunk in flight while the syncer was handling the rejecting response?
-			// (sent before the syncer's next call, not yet acknowledged when the response was logged):
-			// then the chunk raced with RejectPeer + DiscardSender instead of arriving after them.
-			race := false
+			// Chunks that were in flight while the syncer handled the response rejecting their sender
+			// (sent before the syncer's next call, not yet acknowledged when the response was logged)
+			// raced with RejectPeer + DiscardSender instead of arriving after them.  If allowing
+			// exactly those to be kept explains the call, the deviation is that race.
+			inFlight := map[int]bool{}
 			for _, r := range rejections {
-				if r.peer != e.P || r.at > e.N {
-					continue
-				}
 				next := 1 << 60
 				for _, n := range callNs {
 					if n > r.at && n < next {
 						next = n
 					}
 				}
-				all := len(cands) > 0
 				for _, a := range arr {
-					if a.peer == e.P && a.i == e.I && a.b == e.B && a.start < e.N {
-						if !(a.start < next && (a.ack == 0 || a.ack > r.at)) {
-							all = false
-						}
+					if a.peer == r.peer && a.start < next && (a.ack == 0 || a.ack > r.at) {
+						inFlight[a.id] = true
 					}
 				}
-				if all {
-					race = true
-				}
+			}
+			race := false
+			if len(inFlight) > 0 {
+				m3 := &model{h: h, evs: evs, arr: arr, peerOf: peerOf, offerRejects: offerRejects, raceOK: inFlight}
+				m3.prepass()
+				f3 := m3.run(true)
+				race = !m3.overflow && (f3 == nil || f3.at > strictFail.at)
 			}
 			if race {
 				j.add("chunk-in-flight-during-sender-rejection-kept",
